@@ -496,6 +496,10 @@ pub struct HistOpts {
   /// a crowd: dozens of keys held at once (n-key rollover; a forearm on the keyboard); the key
   /// universe is widened by that many extra keys
   pub crowd: bool,
+  /// reset blocks placed after exactly this many delivered events (counted from the start or from
+  /// the previous reset block), instead of at random places: a counter that wraps, a clean-up that
+  /// runs every N-th event, a table that fills up shows only at round counts
+  pub reset_at: Vec<usize>,
 }
 
 #[derive(Default, Clone, Debug)]
@@ -522,6 +526,7 @@ pub fn gen_ops(rng: &mut Rng, l: &Layout, o: &HistOpts, st: &mut GenStats) -> Ve
   let mut intents: Vec<Intent> = vec![];
   let n_int = if l.mappings.is_empty() { 0 } else { o.intents };
   let mut guard = 0;
+  let mut since_reset = 0usize;
   while ops.len() < o.len && guard < o.len * 20 {
     guard += 1;
     // keep intents alive
@@ -611,13 +616,17 @@ pub fn gen_ops(rng: &mut Rng, l: &Layout, o: &HistOpts, st: &mut GenStats) -> Ve
       }
     }
     if let Some(e) = truth_ev { match e { Pressed(k) => uniq_push(&mut truth, k), Released(k) => truth.retain(|x| *x != k) } }
+    let delivered_now = deliver.is_some();
+    if delivered_now { since_reset += 1; }
     if let Some(e) = deliver {
       match &e { Pressed(k) => uniq_push(&mut dphys, *k), Released(k) => dphys.retain(|x| x != k) }
       if let RefOutcome::Fired(i) = r.step(l, &e) { last_fired = Some(i); }
       ops.push(Op::Ev(e));
     }
     // reset block: release_all, unseen activity, release_all — what the loop does around tablet mode
-    if o.resets && rng.chance(1, 25) {
+    let counted_reset = delivered_now && o.reset_at.contains(&since_reset);
+    if counted_reset || (o.resets && o.reset_at.is_empty() && rng.chance(1, 25)) {
+      since_reset = 0;
       ops.push(Op::Reset); st.resets += 1; r.reset();
       for _ in 0..rng.below(4) {
         let k = rng.pick(&universe);
@@ -648,6 +657,11 @@ pub fn swarm_hist(rng: &mut Rng, thorough: bool, faults: bool, resets: bool, nod
   let crowd = rng.chance(1, 400);
   let len = if crowd { rng.range(150, 400) } else if marathon { if thorough { rng.range(300, 3000) } else { rng.range(300, 1200) } } else if thorough { rng.range(4, 120) } else { rng.range(4, 40) };
   let max_held = if crowd { rng.range(33, 44) } else if thorough { rng.range(1, 6) } else { rng.range(1, 4) };
+  // half of the marathons with resets have them at round event counts only
+  let reset_at: Vec<usize> = if marathon && !crowd && resets && rng.chance(1, 2) {
+    let c = [64usize, 100, 127, 128, 129, 255, 256, 257, 511, 512, 513, 1000, 1023, 1024, 1025, 2048];
+    let mut v = vec![]; for _ in 0..rng.range(1, 3) { let x = rng.pick(&c); if x < len && !v.contains(&x) { v.push(x); } } v
+  } else { vec![] };
   let faulty = faults && rng.chance(1, 2);
   let rate = |rng: &mut Rng| if faulty && rng.chance(1, 2) { rng.range(10, 100) as u64 } else { 0 };
   HistOpts {
@@ -659,5 +673,6 @@ pub fn swarm_hist(rng: &mut Rng, thorough: bool, faults: bool, resets: bool, nod
     bias: rng.chance(2, 3),
     end_at_rest: rng.chance(1, 2),
     crowd,
+    reset_at,
   }
 }
